@@ -95,6 +95,8 @@ func runC01(r *ev.Run) {
 
 	// (iii) SQLite-written files
 	fwRun(r, "C01")
+	// (iv) the schema zoo: layouts enumerated, content fixed
+	zooRun(r, "C01")
 }
 
 func c01Image(r *ev.Run, si *ShapeImage, table string, lists [][]string) {
